@@ -653,6 +653,123 @@ impl From<JetFailed> for ExecutionError {
     }
 }
 
+/// Verification hooks (cargo feature `verif-hooks`): the Bit Machine's private
+/// micro-operations on a machine over caller-supplied memory, so that external
+/// proof harnesses can drive the real frame kernels. Add-only; off by default.
+#[cfg(feature = "verif-hooks")]
+pub mod verif_hooks {
+    use super::*;
+
+    /// A Bit Machine over arbitrary memory, with its micro-operations exposed.
+    pub struct Mac(BitMachine);
+
+    impl Mac {
+        /// A machine whose data buffer is `data` and whose frame stacks can
+        /// hold `frames` frames each; no frame is allocated yet.
+        pub fn new(data: Vec<u8>, frames: usize) -> Self {
+            Mac(BitMachine {
+                data,
+                next_frame_start: 0,
+                read: Vec::with_capacity(frames),
+                write: Vec::with_capacity(frames),
+                source_ty: Final::unit(),
+                verif_max_cells: 0,
+                verif_max_frames: 0,
+            })
+        }
+
+        pub fn new_write_frame(&mut self, len: usize) {
+            self.0.new_write_frame(len)
+        }
+
+        pub fn move_write_frame_to_read(&mut self) {
+            self.0.move_write_frame_to_read()
+        }
+
+        pub fn drop_read_frame(&mut self) {
+            self.0.drop_read_frame()
+        }
+
+        pub fn write_bit(&mut self, bit: bool) {
+            self.0.write_bit(bit)
+        }
+
+        pub fn skip(&mut self, n: usize) {
+            self.0.skip(n)
+        }
+
+        pub fn copy(&mut self, n: usize) {
+            self.0.copy(n)
+        }
+
+        pub fn fwd(&mut self, n: usize) {
+            self.0.fwd(n)
+        }
+
+        pub fn back(&mut self, n: usize) {
+            self.0.back(n)
+        }
+
+        pub fn write_u8(&mut self, value: u8) {
+            self.0.write_u8(value)
+        }
+
+        pub fn write_bytes(&mut self, bytes: &[u8]) {
+            self.0.write_bytes(bytes)
+        }
+
+        pub fn write_value(&mut self, val: &Value) {
+            self.0.write_value(val)
+        }
+
+        pub fn read_bit(&mut self) -> bool {
+            self.0.read_bit()
+        }
+
+        /// The bit under the cursor of the active read frame (what `case` inspects).
+        pub fn peek_bit(&self) -> bool {
+            self.0.read[self.0.read.len() - 1].peek_bit(&self.0.data)
+        }
+
+        pub fn active_read_bit_width(&self) -> usize {
+            self.0.active_read_bit_width()
+        }
+
+        pub fn active_write_bit_width(&self) -> usize {
+            self.0.active_write_bit_width()
+        }
+
+        /// The rest of the active read frame, from its cursor (what jets and trackers are shown).
+        pub fn read_frame_iter(&self) -> FrameIter<'_> {
+            self.0.read[self.0.read.len() - 1].as_bit_iter_from_cursor(&self.0.data)
+        }
+
+        /// The rest of the active write frame, from its cursor.
+        pub fn write_frame_iter(&self) -> FrameIter<'_> {
+            self.0.write[self.0.write.len() - 1].as_bit_iter_from_cursor(&self.0.data)
+        }
+
+        /// Rewind the active write frame and read it from its start (what `exec` does with the output frame).
+        pub fn output_iter(&mut self) -> FrameIter<'_> {
+            let out_frame = self.0.write.last_mut().unwrap();
+            out_frame.reset_cursor();
+            out_frame.as_bit_iter_from_cursor(&self.0.data)
+        }
+
+        pub fn data(&self) -> &[u8] {
+            &self.0.data
+        }
+
+        pub fn next_frame_start(&self) -> usize {
+            self.0.next_frame_start
+        }
+
+        pub fn stack_depths(&self) -> (usize, usize) {
+            (self.0.read.len(), self.0.write.len())
+        }
+    }
+}
+
 #[cfg(test)]
 mod tests {
     use super::*;
